@@ -9,7 +9,7 @@ from . import common, progs, stream, findings
 
 class StreamSpec:
     def __init__(self, prop, probes, cfg, n_quick, n_thorough, nontrivial, rule, assumptions=None,
-                 extra_programs=None, clear_cache=False, design_ref=''):
+                 extra_programs=None, clear_cache=False, design_ref='', extra_check=None):
         self.prop = prop
         self.probes = probes
         self.cfg = cfg
@@ -20,6 +20,7 @@ class StreamSpec:
         self.assumptions = assumptions or []
         self.extra_programs = extra_programs or (lambda rng, tier: [])
         self.clear_cache = clear_cache
+        self.extra_check = extra_check   # (oc, tier, seed) -> dict merged into the coverage (clauses not decided over build programs)
 
 
 def load_corpus(prop):
@@ -137,6 +138,9 @@ def run(spec: StreamSpec, tier: str, seed: int) -> int:
                           'program': small, 'first_difference': rr['dis'],
                           'implementation_answers': rr['impl'], 'model_answers': rr['model'],
                           'predicate_failures': rr['fails']}, found_input=found)
+    extra = {}
+    if spec.extra_check is not None:
+        extra = spec.extra_check(oc, tier, seed) or {}
     if not proof_ok:
         # a proof obligation no longer checks; the run above was the search for a failing input
         if not oc.violations:
@@ -154,7 +158,7 @@ def run(spec: StreamSpec, tier: str, seed: int) -> int:
         'trusted_base': common.TRUSTED_BASE,
         'theorems': lean.get('theorems', []),
         'axioms': lean.get('axioms', {}),
-        'evaluations': len(results),
+        'evaluations': len(results) + len(extra.get('library_cases', [])),
         'distinct_nontrivial': len(nontrivial),
         'rule': spec.rule,
         'samples': samples,
@@ -167,5 +171,6 @@ def run(spec: StreamSpec, tier: str, seed: int) -> int:
         'known_findings_printed': oc.known,
         'lean': {k: lean.get(k) for k in ('build_ok', 'build_s', 'lean_s', 'failed', 'forbidden_hits', 'translator')},
     })
+    coverage.update(extra)
     common.write_evidence(prop, tier, seed, coverage, wall, len(oc.violations), spec.assumptions)
     return oc.emit()
